@@ -28,14 +28,18 @@
 (* failure, notifications).                                                    *)
 EXTENDS Integers, Sequences, FiniteSets, TLC
 
-CONSTANTS MaxN,       \* statement counts 0..MaxN
+CONSTANTS RecChoices, \* values of _ConcurrentExecutor.max_error_recursion (100 in the code; shrunk on the real class)
+          MaxN,       \* statement counts 0..MaxN
           Variants,   \* subset of {"list", "gen", "future"}
           Behs        \* subset of {"raise", "done_ok", "done_err", "later_ok", "later_err"}
 
 SyncBehs == {"raise", "done_ok", "done_err"}
 OkBehs   == {"done_ok", "later_ok"}
 
-VARIABLES n, c, failFast, variant, beh,     \* the configuration (fixed by Init)
+VARIABLES n, c, failFast, variant, beh, rec,     \* the configuration (fixed by Init); rec = max_error_recursion
+          depth,     \* _exec_depth: nesting of _execute in the current chain of synchronous completions
+          deferred,  \* statements whose execute_async raised at the recursion limit: their result was handed to
+                     \* session.submit(_put_result, exc, idx, False) and is delivered later by an executor thread
           next,      \* next statement to start (1..n+1); exec_count = next - 1
           running,   \* started, completing later, not completed yet
           res,       \* per statement: "none" / "ok" / "err"
@@ -61,8 +65,8 @@ VARIABLES n, c, failFast, variant, beh,     \* the configuration (fixed by Init)
           futOut,    \* the result list the future carries
           act
 
-cfgvars == <<n, c, failFast, variant, beh>>
-vars == <<n, c, failFast, variant, beh, next, running, res, order, peak, holder, pc, cur, budget, syncPut, pendFut, pendRet,
+cfgvars == <<n, c, failFast, variant, beh, rec>>
+vars == <<n, c, failFast, variant, beh, rec, depth, deferred, next, running, res, order, peak, holder, pc, cur, budget, syncPut, pendFut, pendRet,
           firstExc, notified, phase, out, raised, consumed, futN, futVal, futExc, futOut, act>>
 
 A(name, i) == [name |-> name, i |-> i]
@@ -79,6 +83,8 @@ Init ==
     /\ failFast \in BOOLEAN
     /\ variant \in Variants
     /\ beh \in [1..n -> Behs]
+    /\ rec \in RecChoices
+    /\ depth = 0 /\ deferred = {}
     /\ next = 1 /\ running = {} /\ res = [i \in 1..n |-> "none"] /\ order = <<>> /\ peak = 0
     /\ holder = "none" /\ pc = "idle" /\ cur = 0 /\ budget = 0 /\ syncPut = FALSE /\ pendFut = FALSE /\ pendRet = FALSE
     /\ firstExc = 0 /\ notified = FALSE /\ phase = "init" /\ out = <<>> /\ raised = 0 /\ consumed = 0
@@ -102,17 +108,17 @@ EmptyCall ==
        THEN phase' = "returned" /\ FutComplete
        ELSE phase' = (IF variant = "gen" THEN "finished" ELSE "returned") /\ UNCHANGED <<futN, futVal, futExc, futOut>>
     /\ act' = A("EmptyCall", 0)
-    /\ UNCHANGED <<cfgvars, next, running, res, order, peak, holder, pc, cur, budget, syncPut, pendFut, pendRet, firstExc,
+    /\ UNCHANGED <<cfgvars, depth, deferred, next, running, res, order, peak, holder, pc, cur, budget, syncPut, pendFut, pendRet, firstExc,
                    notified, out, raised, consumed>>
 
 (* _ConcurrentExecutor.execute: with self._condition: for n in range(concurrency): ... *)
 BeginSubmit ==
     /\ phase = "init" /\ n > 0
     /\ holder = "none"
-    /\ holder' = "caller" /\ pc' = "next" /\ budget' = c /\ syncPut' = FALSE
+    /\ holder' = "caller" /\ pc' = "next" /\ budget' = c /\ syncPut' = FALSE /\ depth' = 0
     /\ phase' = "submitting"
     /\ act' = A("BeginSubmit", 0)
-    /\ UNCHANGED <<cfgvars, next, running, res, order, peak, cur, pendFut, pendRet, firstExc, notified, out, raised, consumed,
+    /\ UNCHANGED <<cfgvars, deferred, next, running, res, order, peak, cur, pendFut, pendRet, firstExc, notified, out, raised, consumed,
                    futN, futVal, futExc, futOut>>
 
 EndSectionVars ==
@@ -126,13 +132,21 @@ Start ==
             /\ pc' = "ret"
             /\ budget' = 0
             /\ act' = A("Exhausted", 0)
-            /\ UNCHANGED <<next, running, peak, cur>>
+            /\ UNCHANGED <<next, running, peak, cur, depth, deferred>>
        ELSE /\ next' = next + 1
             /\ peak' = Max2(peak, Cardinality(running) + 1)
-            /\ act' = A("Start", next)
-            /\ IF beh[next] \in SyncBehs
-               THEN cur' = next /\ pc' = "put" /\ UNCHANGED running
-               ELSE running' = running \cup {next} /\ pc' = "ret" /\ UNCHANGED cur
+            /\ depth' = depth + 1                      \* _execute: self._exec_depth += 1
+            /\ IF beh[next] = "raise" /\ depth + 1 >= rec
+               THEN \* recursion limit reached: the error result is handed to the session's executor; this chain ends
+                    /\ deferred' = deferred \cup {next}
+                    /\ pc' = "ret"
+                    /\ act' = A("StartDeferred", next)
+                    /\ UNCHANGED <<running, cur>>
+               ELSE /\ act' = A("Start", next)
+                    /\ UNCHANGED deferred
+                    /\ IF beh[next] \in SyncBehs
+                       THEN cur' = next /\ pc' = "put" /\ UNCHANGED running
+                       ELSE running' = running \cup {next} /\ pc' = "ret" /\ UNCHANGED cur
             /\ UNCHANGED budget
     /\ UNCHANGED <<cfgvars, res, order, holder, syncPut, pendFut, pendRet, firstExc, notified, phase, out, raised, consumed,
                    futN, futVal, futExc, futOut>>
@@ -141,22 +155,33 @@ Start ==
 Complete(i) ==
     /\ i \in running
     /\ holder = "none" /\ ~pendFut /\ ~pendRet        \* one event-loop thread: its previous callback has returned
-    /\ holder' = "loop" /\ pc' = "put" /\ cur' = i /\ syncPut' = FALSE
+    /\ holder' = "loop" /\ pc' = "put" /\ cur' = i /\ syncPut' = FALSE /\ depth' = 0
     /\ running' = running \ {i}
     /\ act' = A("Complete", i)
-    /\ UNCHANGED <<cfgvars, next, res, order, peak, budget, pendFut, pendRet, firstExc, notified, phase, out, raised, consumed,
+    /\ UNCHANGED <<cfgvars, deferred, next, res, order, peak, budget, pendFut, pendRet, firstExc, notified, phase, out, raised, consumed,
                    futN, futVal, futExc, futOut>>
+
+(* the executor runs a task queued by _execute at the recursion limit: _put_result(exc, idx, False) on its thread. *)
+(* (modelled like a completion on the event-loop thread: one such callback at a time)                            *)
+RunDeferred(i) ==
+    /\ i \in deferred
+    /\ holder = "none" /\ ~pendFut /\ ~pendRet
+    /\ holder' = "loop" /\ pc' = "putd" /\ cur' = i /\ syncPut' = FALSE /\ depth' = 0
+    /\ deferred' = deferred \ {i}
+    /\ act' = A("RunDeferred", i)
+    /\ UNCHANGED <<cfgvars, next, running, res, order, peak, budget, pendFut, pendRet, firstExc, notified, phase, out, raised,
+                   consumed, futN, futVal, futExc, futOut>>
 
 Waiting == phase \in {"waiting", "gwaiting"}
 
 (* _put_result of statement cur *)
 Put ==
-    /\ holder # "none" /\ pc = "put"
+    /\ holder # "none" /\ pc \in {"put", "putd"}
     /\ LET i == cur
            ok == beh[i] \in OkBehs IN
        /\ res' = [res EXCEPT ![i] = IF ok THEN "ok" ELSE "err"]
        /\ order' = Append(order, i)
-       /\ syncPut' = (syncPut \/ beh[i] \in SyncBehs)
+       /\ syncPut' = (syncPut \/ (beh[i] \in SyncBehs /\ pc = "put"))     \* (a deferred put is the task's outermost frame)
        /\ act' = A("Put", i)
        /\ IF ListLike /\ ~ok /\ failFast
           THEN \* remember the first failure, wake the caller, start nothing
@@ -166,12 +191,13 @@ Put ==
           ELSE /\ UNCHANGED firstExc
                /\ pc' = "next"
                /\ notified' = IF variant = "gen" THEN (notified \/ Waiting) ELSE notified
-    /\ UNCHANGED <<cfgvars, next, running, peak, holder, cur, budget, pendFut, pendRet, phase, out, raised, consumed,
+    /\ UNCHANGED <<cfgvars, depth, deferred, next, running, peak, holder, cur, budget, pendFut, pendRet, phase, out, raised, consumed,
                    futN, futVal, futExc, futOut>>
 
 (* end of a chain: back in the submission loop, or at the end of the completing thread's section *)
 Ret ==
     /\ holder # "none" /\ pc = "ret"
+    /\ depth' = 0                                   \* the chain has unwound
     /\ LET allDone == AllDone
            \* list: "elif not self._execute_next() and self._current == self._exec_count: notify"
            note == IF ListLike /\ allDone /\ Waiting THEN TRUE ELSE notified IN
@@ -186,7 +212,7 @@ Ret ==
                /\ pendFut' = (holder = "loop" /\ variant = "future")
                /\ pendRet' = (holder = "loop" /\ variant # "future")
     /\ act' = A("Ret", 0)
-    /\ UNCHANGED <<cfgvars, next, running, res, order, peak, firstExc, out, raised, consumed>>
+    /\ UNCHANGED <<cfgvars, deferred, next, running, res, order, peak, firstExc, out, raised, consumed>>
 
 (* list / generator: after releasing the lock the completing thread's _put_result simply returns.  The step *)
 (* is explicit so that the caller's actions are explored (and replayed) between the release and the return: *)
@@ -195,7 +221,7 @@ LoopReturn ==
     /\ pendRet /\ holder = "none"
     /\ pendRet' = FALSE
     /\ act' = A("LoopReturn", 0)
-    /\ UNCHANGED <<cfgvars, next, running, res, order, peak, holder, pc, cur, budget, syncPut, pendFut, firstExc, notified,
+    /\ UNCHANGED <<cfgvars, depth, deferred, next, running, res, order, peak, holder, pc, cur, budget, syncPut, pendFut, firstExc, notified,
                    phase, out, raised, consumed, futN, futVal, futExc, futOut>>
 
 (* ConcurrentExecutorFutureResults._put_result, second lock section of a later completion *)
@@ -204,7 +230,7 @@ FutCheck ==
     /\ pendFut' = FALSE
     /\ IF AllDone THEN FutComplete ELSE UNCHANGED <<futN, futVal, futExc, futOut>>
     /\ act' = A("FutCheck", 0)
-    /\ UNCHANGED <<cfgvars, next, running, res, order, peak, holder, pc, cur, budget, syncPut, pendRet, firstExc, notified, phase,
+    /\ UNCHANGED <<cfgvars, depth, deferred, next, running, res, order, peak, holder, pc, cur, budget, syncPut, pendRet, firstExc, notified, phase,
                    out, raised, consumed>>
 
 -----------------------------------------------------------------------------
@@ -228,7 +254,7 @@ Collect ==
             /\ UNCHANGED <<out, raised, futN, futVal, futExc, futOut>>
        ELSE ListOutcome /\ UNCHANGED notified
     /\ act' = A("Collect", 0)
-    /\ UNCHANGED <<cfgvars, next, running, res, order, peak, holder, pc, cur, budget, syncPut, pendFut, pendRet, firstExc, consumed>>
+    /\ UNCHANGED <<cfgvars, depth, deferred, next, running, res, order, peak, holder, pc, cur, budget, syncPut, pendFut, pendRet, firstExc, consumed>>
 
 Wake ==
     /\ phase = "waiting" /\ notified /\ holder = "none"
@@ -236,7 +262,7 @@ Wake ==
        THEN ListOutcome /\ UNCHANGED notified
        ELSE notified' = FALSE /\ UNCHANGED <<phase, out, raised, futN, futVal, futExc, futOut>>
     /\ act' = A("Wake", 0)
-    /\ UNCHANGED <<cfgvars, next, running, res, order, peak, holder, pc, cur, budget, syncPut, pendFut, pendRet, firstExc, consumed>>
+    /\ UNCHANGED <<cfgvars, depth, deferred, next, running, res, order, peak, holder, pc, cur, budget, syncPut, pendFut, pendRet, firstExc, consumed>>
 
 (* ConcurrentExecutorGenResults._results: one next() of the consumer *)
 GenStep ==
@@ -256,24 +282,25 @@ Consume ==
     /\ phase = "gen" /\ holder = "none"
     /\ GenStep
     /\ act' = A("Consume", 0)
-    /\ UNCHANGED <<cfgvars, next, running, res, order, peak, holder, pc, cur, budget, syncPut, pendFut, pendRet, firstExc,
+    /\ UNCHANGED <<cfgvars, depth, deferred, next, running, res, order, peak, holder, pc, cur, budget, syncPut, pendFut, pendRet, firstExc,
                    futN, futVal, futExc, futOut>>
 
 GWake ==
     /\ phase = "gwaiting" /\ notified /\ holder = "none"
     /\ GenStep
     /\ act' = A("GWake", 0)
-    /\ UNCHANGED <<cfgvars, next, running, res, order, peak, holder, pc, cur, budget, syncPut, pendFut, pendRet, firstExc,
+    /\ UNCHANGED <<cfgvars, depth, deferred, next, running, res, order, peak, holder, pc, cur, budget, syncPut, pendFut, pendRet, firstExc,
                    futN, futVal, futExc, futOut>>
 
 CallerDone == phase \in {"returned", "raised", "finished"}
-Terminal == CallerDone /\ running = {} /\ holder = "none" /\ ~pendFut /\ ~pendRet
+Terminal == CallerDone /\ running = {} /\ deferred = {} /\ holder = "none" /\ ~pendFut /\ ~pendRet
 Finish == Terminal /\ UNCHANGED vars
 
 CompleteAny == \E i \in Stmts : Complete(i)
+RunDeferredAny == \E i \in Stmts : RunDeferred(i)
 
 Next == \/ EmptyCall \/ BeginSubmit \/ Start \/ Put \/ Ret \/ FutCheck \/ LoopReturn
-        \/ CompleteAny
+        \/ CompleteAny \/ RunDeferredAny
         \/ Collect \/ Wake \/ Consume \/ GWake
         \/ Finish
 
@@ -283,7 +310,7 @@ FairSpec == Spec /\ WF_vars(Next)
 -----------------------------------------------------------------------------
 TypeOK ==
     /\ next \in 1..(n + 1)
-    /\ running \subseteq Stmts
+    /\ running \subseteq Stmts /\ deferred \subseteq Stmts /\ depth \in 0..(n + 1)
     /\ futN \in Nat /\ peak \in Nat
     /\ holder \in {"none", "caller", "loop"}
 
@@ -299,6 +326,11 @@ OnePerStatement ==
     /\ (variant = "future" /\ futVal = "result") => /\ Len(futOut) = n
                                                    /\ \A k \in 1..n : futOut[k].i = k /\ futOut[k].ok = (beh[k] \in OkBehs)
     /\ \A i \in Stmts : Cardinality({k \in 1..Len(order) : order[k] = i}) <= 1
+
+\* every statement gets exactly one result, also when its error result travels through session.submit
+EveryStatementAnswered ==
+    /\ (Terminal /\ ~failFast) => \A i \in Stmts : res[i] # "none"
+    /\ \A i \in deferred : res[i] = "none" /\ i < next /\ beh[i] = "raise"
 
 Failed == {i \in Stmts : res[i] = "err"}
 FirstFailedCompletion == IF \E k \in 1..Len(order) : res[order[k]] = "err"
@@ -335,6 +367,7 @@ Witness_FailFastWhileRunning == ~(phase = "raised" /\ running # {})
 Witness_FutureByCaller == ~(variant = "future" /\ act.name \in {"Wake", "Collect"} /\ futVal = "exc" /\ running # {})
 Witness_GenWaits == ~(phase = "gwaiting")
 Witness_ConsumerBeforeLoopReturn == ~(pendRet /\ variant = "gen" /\ act.name \in {"GWake", "Consume"} /\ next <= n)
+Witness_DeferredDelivered == ~(act.name = "Put" /\ pc = "next" /\ holder = "loop" /\ beh[act.i] = "raise" /\ rec <= n /\ next <= n)
 Witness_FullConcurrency == ~(peak = c /\ c >= 2 /\ Cardinality(running) = c)
 \* the same witnesses as stuttering probe actions: with NEXT NextW and -coverage, a non-zero count for W_x
 \* shows x is reachable without a separate TLC run (NextW is used for nothing else)
@@ -344,6 +377,7 @@ W_FailFastWhileRunning == ~Witness_FailFastWhileRunning /\ UNCHANGED vars
 W_FutureByCaller == ~Witness_FutureByCaller /\ UNCHANGED vars
 W_GenWaits == ~Witness_GenWaits /\ UNCHANGED vars
 W_FullConcurrency == ~Witness_FullConcurrency /\ UNCHANGED vars
+W_DeferredDelivered == ~Witness_DeferredDelivered /\ UNCHANGED vars
 W_ConsumerBeforeLoopReturn == ~Witness_ConsumerBeforeLoopReturn /\ UNCHANGED vars
-NextW == Next \/ W_SyncChain \/ W_WaitAndWake \/ W_FailFastWhileRunning \/ W_FutureByCaller \/ W_GenWaits \/ W_FullConcurrency \/ W_ConsumerBeforeLoopReturn
+NextW == Next \/ W_SyncChain \/ W_WaitAndWake \/ W_FailFastWhileRunning \/ W_FutureByCaller \/ W_GenWaits \/ W_FullConcurrency \/ W_ConsumerBeforeLoopReturn \/ W_DeferredDelivered
 =============================================================================
